@@ -28,10 +28,10 @@ def hexv(v):
         return "-"
     return v.hex()
 
-DEFAULT_W = dict(put=34, get=12, has=3, size=4, remove=12, flush=12, reopen=0, rebits=0, igc=0, pgc=0, iter=0, crash=0)
+DEFAULT_W = dict(put=34, get=12, has=3, size=4, remove=12, flush=12, reopen=0, rebits=0, igc=0, pgc=0, iter=0, crash=0, missize=0, pgcb=0, igcb=0, atflush=0)
 
 def history(rng, weights=None, nops=(15, 60), bits_choices=(8, 9, 12, 16), imax_choices=(1, 40, 100, 300, 1 << 30),
-            pmax_choices=(1, 60, 100, 300, 1 << 30), imm_p=0.25, nkeys=(4, 11), maxlen=11, keys=None):
+            pmax_choices=(1, 60, 100, 300, 1 << 30), imm_p=0.25, nkeys=(4, 11), maxlen=11, keys=None, sweep_p=0.0):
     w = dict(DEFAULT_W)
     if weights:
         w.update(weights)
@@ -55,7 +55,9 @@ def history(rng, weights=None, nops=(15, 60), bits_choices=(8, 9, 12, 16), imax_
             lines.append("crash %d" % rng.randint(0, 1000))
             lines.append("flush")
         elif kind == "reopen":
-            lines.append("reopen %d" % rng.randint(0, 1))
+            lines.append("reopen %d" % rng.choice((0, 0, 1, 1, 2)))
+        elif kind == "missize":
+            lines.append("missize")
         elif kind == "rebits":
             nb = rng.choice([b for b in bits_choices if b != bits] or [bits])
             bits = nb
@@ -66,4 +68,35 @@ def history(rng, weights=None, nops=(15, 60), bits_choices=(8, 9, 12, 16), imax_
             lines.append("pgc %d" % rng.randint(10, 94))
         elif kind == "iter":
             lines.append("iter")
+        elif kind == "pgcb":
+            lines.append("pgcb %d %d" % (rng.randint(10, 94), rng.choice((0, 0, 1, 1, 2, 3, 5, 8))))
+        elif kind == "igcb":
+            lines.append("igcb %d %d" % (rng.randint(0, 1), rng.choice((0, 1, 1, 2, 3, 5, 8))))
+        elif kind == "atflush":
+            # a writer slips into the next Flush between its index flush and its freelist flush
+            if rng.random() < 0.75:
+                lines.append("at store.commit.afterIndexFlush put %s %s" % (k.hex(), hexv(rand_val(rng, maxlen))))
+            else:
+                lines.append("at store.commit.afterIndexFlush remove %s" % k.hex())
+            lines.append("flush")
+        if kind in ("reopen", "rebits", "igc", "pgc", "missize") and rng.random() < sweep_p:
+            for k2 in ks:       # read everything back right after the operation
+                lines.append("%s %s" % (rng.choice(("get", "get", "has", "size")), k2.hex()))
+    return "\n".join(lines) + "\n"
+
+
+def add_drain(rng, text):
+    """C11: remove every key, flush, then GC cycles; the last two cycles must find nothing to do."""
+    lines = text.strip().split("\n")
+    keys = []
+    for l in lines:
+        f = l.split()
+        if f and f[0] in ("put", "get", "has", "size", "remove") and f[1] not in keys:
+            keys.append(f[1])
+    # make sure the store is writable for removals even in immutable mode (Remove is allowed there too)
+    for k in keys:
+        lines.append("remove " + k)
+    lines.append("flush")
+    lu = rng.randint(10, 94)
+    lines += ["pgc %d" % lu, "igc 1", "pgc %d" % lu, "igc 0", "pgc %d" % lu, "igc 1", "#fixedpoint", "pgc %d" % lu, "igc 1", "igc 0"]
     return "\n".join(lines) + "\n"
